@@ -26,13 +26,20 @@ Inductive op :=
 | SetArraysize (n : Z)
 | ObservePure                    (* column_names / columncount / arraysize: touch nothing *)
 | ObserveMat                     (* rowcount, len, shape, collect, iteration, slice, arrow, display, str *)
-| Append (r : A).
+| Append (r : A)                 (* append of an entry the frame accepts *)
+| AppendBad (r : A).             (* append of an entry that makes append raise: schema validation rejects it,
+                                    the row factory cannot build a row from it, or Row.nbytes() cannot size
+                                    it (integer wider than 64 bits, non-string dict key, record over 16Mb).
+                                    [r] is the row that would have been stored. *)
 
 Inductive out :=
 | ORow (r : option A)            (* fetchone *)
 | ORows (l : list A)             (* fetchmany / fetchall *)
-| OUnit                          (* observers, arraysize, successful append *)
-| ORaise.                        (* the call raised *)
+| OUnit                          (* observers, arraysize *)
+| ORaise                         (* the (fetch) call raised *)
+| OAppend (ok : bool) (n : option nat).
+                                 (* an append call: did it return normally, and the length of the row store
+                                    right afterwards (None while the store is a generator and has no length) *)
 
 Definition init_eager (l : list A) : st := mk l false (Some 0) 100.
 Definition init_lazy (l : list A) : st := mk l true (Some 0) 100.
@@ -50,8 +57,12 @@ Definition step (s : st) (o : op) : st * out :=
            (mk (rows s) false (match cur s with Some _ => Some (length (rows s)) | None => None end) (asz s), OUnit)
       else (s, OUnit)
   | Append r =>
-      if lazy s then (s, ORaise)   (* generator has no append; raised before the cursor is dropped *)
-      else (mk (rows s ++ [r]) false None (asz s), OUnit)
+      if lazy s then (s, OAppend false None)   (* generator has no append; raised before the cursor is dropped *)
+      else (mk (rows s ++ [r]) false None (asz s), OAppend true (Some (length (rows s ++ [r]))))
+  | AppendBad r =>
+      (* every statement of DataFrame.append that can raise (validate, row factory, nbytes) comes before
+         the first one that changes the frame: nothing is stored and the cursor is left alone *)
+      (s, OAppend false (if lazy s then None else Some (length (rows s))))
   | FetchOne =>
       match cur s with
       | None => (s, ORaise)
@@ -104,7 +115,11 @@ Definition delivered (x : out) : list A :=
 
 Definition fetched (xs : list out) : list A := flat_map delivered xs.
 
+(* is_append: an append that stored its row (a failed append is not one) *)
 Definition is_append (o : op) : bool := match o with Append _ => true | _ => false end.
+Definition appended_of (o : op) : list A := match o with Append r => [r] | _ => [] end.
+(* the rows a history stored, in call order *)
+Definition appended (ops : list op) : list A := flat_map appended_of ops.
 Definition is_fetch (o : op) : bool :=
   match o with FetchOne | FetchMany _ | FetchAll => true | _ => false end.
 Definition is_mat (o : op) : bool := match o with ObserveMat => true | _ => false end.
@@ -114,6 +129,7 @@ End Cursor.
 Arguments mk {A}. Arguments rows {A}. Arguments lazy {A}. Arguments cur {A}. Arguments asz {A}.
 Arguments FetchOne {A}. Arguments FetchMany {A}. Arguments FetchAll {A}.
 Arguments SetArraysize {A}. Arguments ObservePure {A}. Arguments ObserveMat {A}. Arguments Append {A}.
+Arguments AppendBad {A}. Arguments OAppend {A}. Arguments appended_of {A}. Arguments appended {A}.
 Arguments ORow {A}. Arguments ORows {A}. Arguments OUnit {A}. Arguments ORaise {A}.
 Arguments init_eager {A}. Arguments init_lazy {A}. Arguments step {A}. Arguments run {A}.
 Arguments fetched {A}. Arguments delivered {A}. Arguments is_append {A}. Arguments is_fetch {A}.
@@ -127,6 +143,13 @@ Definition out_eqb (a b : out Z) : bool :=
   | ORows l1, ORows l2 => if list_eq_dec Z.eq_dec l1 l2 then true else false
   | OUnit, OUnit => true
   | ORaise, ORaise => true
+  | OAppend k1 n1, OAppend k2 n2 =>
+      Bool.eqb k1 k2 &&
+      match n1, n2 with
+      | None, None => true
+      | Some x, Some y => Nat.eqb x y
+      | _, _ => false
+      end
   | _, _ => false
   end.
 
